@@ -123,6 +123,28 @@ def gen_history(rnd, nops, big):
     return lines
 
 
+def size_sweep_histories():
+    """Deterministic size-sweep family (direction B): every threshold T in 8..1024 is crossed by the length of the list
+    (n = T-1, T, T+1) through prepend/append/remove at both ends, a past-the-end insert_at whose gap exceeds 512 placeholders
+    on a NON-EMPTY list, reverse, dup and done - fast paths that only switch on at a size are invisible to the small
+    exhaustive scope; TLC judges every recorded step of these executions with the same ListSeq actions."""
+    hs = []
+    for T in (8, 16, 32, 64, 128, 256, 512, 1024):
+        h = ["append 1", "insert_at 2 %d" % (T - 2),            # len T-1: [1, NULL..., 2]
+             "count", "get 0", "get -1", "get %d" % (T // 2),
+             "prepend 3", "count", "prepend 4", "append 5",      # T, T+1, T+2
+             "remove_at 0", "remove_at -1", "remove_at 0",       # back to T-1
+             "prepend 6", "prepend 7",                           # T, T+1 again through prepend
+             "index 2", "find 5", "contains 2",
+             "insert_at 8 %d" % (T + 1 + 513),                   # gap of 513 placeholders behind a non-empty list
+             "count", "get %d" % (T + 5), "get -1", "get %d" % (T + 1 + 513),
+             "reverse", "get 0", "get -1",
+             "dup", "b_append 9", "b_remove_at 0", "b_reverse", "b_del",
+             "remove 8", "remove_at %d" % (T // 2), "to_array", "done", "count", "append 1", "prepend 2"]
+        hs.append(h)
+    return hs
+
+
 def trace_validation(ctx, exe):
     """Direction (B): long random histories (lists of up to ~300 elements) recorded on each class, validated by TLC."""
     import random
@@ -131,7 +153,8 @@ def trace_validation(ctx, exe):
     from vlib.core import untok
     rnd = random.Random(ctx.seed)
     nexec, nops = (12, 120) if ctx.tier == "quick" else (120, 300)
-    hist = [gen_history(rnd, nops, big=(k % 2 == 0)) for k in range(nexec)]
+    hist = [gen_history(rnd, nops, big=(k % 2 == 0)) for k in range(nexec)] + size_sweep_histories()
+    nexec = len(hist)
     texts = ["S %d\n%s\nE\n" % (k + 1, "\n".join("%s = ? ?" % c for c in h)) for k, h in enumerate(hist)]
     total = 0
     for cls in CLASSES:
